@@ -541,3 +541,338 @@ Proof.
   split; [intros a lam env Ha; rewrite Hh; split; [exact Ha|apply env_at_ext; assumption]|].
   intros env k v Hl. eapply load_lex_slot_ext; [| | |exact Hl]; cbn [hp st ep with_ep]; auto.
 Qed.
+
+(* ====================================================================== *)
+(* (c) locations are flat: the whole-machine invariant                      *)
+Definition no_lexptr (v : vcell) : Prop := match v with VLexPtr _ _ => False | _ => True end.
+
+(* a slot value is well-formed when, being a pointer, it leads to a slot of an existing
+   environment object that does not hold a pointer *)
+Definition slot_flat (s : vm) (v : vcell) : Prop :=
+  match v with
+  | VLexPtr q k2 => exists e2 l2 w, env_at s q = Some (e2, l2) /\ list_get l2 k2 = Some w /\ no_lexptr w
+  | _ => True
+  end.
+
+(* over the environment payloads themselves (stronger than over the payloads reachable
+   through a heap cell: an Rc payload not yet stored in the heap is covered too) *)
+Definition flat_envs (s : vm) : Prop :=
+  forall eid l k v, tget (envs (st s)) eid = Some l -> list_get l k = Some v -> slot_flat s v.
+
+(* the statement of Props/C02.v, for one machine state *)
+Definition flat (s : vm) : Prop :=
+  forall p k q k2 eid l,
+    env_at s p = Some (eid, l) -> list_get l k = Some (VLexPtr q k2) ->
+    exists e2 l2 v, env_at s q = Some (e2, l2) /\ list_get l2 k2 = Some v /\
+                    match v with VLexPtr _ _ => False | _ => True end.
+
+Lemma flat_envs_flat s : flat_envs s -> flat s.
+Proof.
+  intros F p k q k2 eid l Hp Hk. apply env_at_some in Hp as (_ & _ & E).
+  exact (F eid l k _ E Hk).
+Qed.
+
+Definition stack_clean (s : vm) : Prop := forall i, no_lexptr (sget s i).
+
+(* the invariant: heap and store well-formed, environments flat, and no LexPtr VALUE in
+   the registers the instructions move values through (stack, %acc) *)
+Record lex_inv (s : vm) : Prop := {
+  li_heap : heap_inv (hp s);
+  li_store : store_wf (st s);
+  li_flat : flat_envs s;
+  li_stack : stack_clean s;
+  li_acc : no_lexptr (acc s)
+}.
+
+(* established by the machine of Vm::new *)
+Lemma lex_inv_empty c : 0 < c -> lex_inv (vm_empty c).
+Proof.
+  intros Hc. constructor; cbn [hp st acc vm_empty].
+  - apply heap_inv_new. exact Hc.
+  - apply store_wf_empty.
+  - intros eid l k v E. cbn in E. rewrite tget_tempty in E. discriminate.
+  - intros i. unfold sget. cbn [stack vm_empty stack_new]. rewrite tget_tempty. exact I.
+  - exact I.
+Qed.
+
+(* environment objects persist from s to s' (slots may be overwritten by non-pointers) *)
+Definition envs_persist (s s' : vm) : Prop :=
+  forall q e2 l2, env_at s q = Some (e2, l2) ->
+    exists l2', env_at s' q = Some (e2, l2') /\
+      forall k w, list_get l2 k = Some w -> exists w', list_get l2' k = Some w' /\ (no_lexptr w -> no_lexptr w').
+
+Lemma slot_flat_persist s s' v : envs_persist s s' -> slot_flat s v -> slot_flat s' v.
+Proof.
+  intros R. destruct v; try (intros; exact I). cbn [slot_flat].
+  intros (e2 & l2 & w & Hq & Hw & Hc). destruct (R _ _ _ Hq) as (l2' & Hq' & Hk).
+  destruct (Hk _ _ Hw) as (w' & Hw' & Hc'). exists e2, l2', w'. auto.
+Qed.
+
+Lemma no_lexptr_slot_flat s v : no_lexptr v -> slot_flat s v.
+Proof. destruct v; intros H; try exact I. destruct H. Qed.
+
+(* the generic step: every slot of every payload of s' is flat in s' outright, or is a
+   value some payload of s already held *)
+Lemma flat_envs_step s s' :
+  envs_persist s s' -> flat_envs s ->
+  (forall eid l k v, tget (envs (st s')) eid = Some l -> list_get l k = Some v ->
+     slot_flat s' v \/ exists e0 l0 k0, tget (envs (st s)) e0 = Some l0 /\ list_get l0 k0 = Some v) ->
+  flat_envs s'.
+Proof.
+  intros R F H eid l k v E Hk. destruct (H eid l k v E Hk) as [Hf|(e0 & l0 & k0 & E0 & Hk0)]; [exact Hf|].
+  apply (slot_flat_persist s s' v R). exact (F e0 l0 k0 v E0 Hk0).
+Qed.
+
+Lemma envs_persist_same s s' :
+  (forall q x, env_at s q = Some x -> env_at s' q = Some x) -> envs_persist s s'.
+Proof.
+  intros H q e2 l2 Hq. exists l2. split; [apply H; exact Hq|]. intros k w Hw. exists w. auto.
+Qed.
+
+(* ---- ENTER: where each slot of the activation environment comes from *)
+Definition act_origin (s1 : vm) (cep : N) (cslots : list vcell) (i : N) (v : vcell) : Prop :=
+  list_get cslots i = Some v \/ (exists j, v = sget s1 j) \/
+  (v = VLexPtr cep i /\ exists c, list_get cslots i = Some c /\ no_lexptr c).
+
+Lemma stack_get_inv i s v s' : stack_get i s = ROk v s' -> v = sget s i /\ s' = s.
+Proof. unfold stack_get. destruct (i <? scap s); [|discriminate]. intros [= <- <-]. auto. Qed.
+
+Lemma build_lexical_environment_origin l cep cslots s1 env s1' :
+  build_lexical_environment l cep cslots s1 = ROk env s1' ->
+  forall i v, list_get env i = Some v -> act_origin s1 cep cslots i v.
+Proof.
+  unfold build_lexical_environment.
+  match goal with |- ?g _ _ _ _ = _ -> _ =>
+    assert (H : forall m slot0 env0,
+              (forall i v, list_get env0 i = Some v -> act_origin s1 cep cslots i v) ->
+              g m slot0 env0 s1 = ROk env s1' ->
+              forall i v, list_get env i = Some v -> act_origin s1 cep cslots i v) end.
+  2:{ apply H. intros i v Hi. left. exact Hi. }
+  induction m as [|[sym src] r IH]; intros slot0 env0 Henv0 H0.
+  - cbn in H0. unfold ret in H0. injection H0 as <- <-. exact Henv0.
+  - cbn in H0. destruct src.
+    + eapply IH; [exact Henv0|exact H0].
+    + apply bind_pure_ok in H0 as (s0 & E0 & H0); [|apply pure_get_vm]. injection E0 as <-.
+      apply bind_pure_ok in H0 as (k & _ & H0); [|apply pure_usub].
+      apply bind_pure_ok in H0 as (base & _ & H0); [|apply pure_usub].
+      apply bind_pure_ok in H0 as (v & Hv & H0); [|apply pure_stack_get].
+      apply stack_get_inv in Hv as (Hv & _).
+      eapply IH; [|exact H0]. intros i w Hi. rewrite list_get_set in Hi.
+      destruct (N.eqb_spec slot0 i) as [->|_]; [|apply Henv0; exact Hi].
+      destruct (list_get env0 i); [|discriminate]. injection Hi as <-.
+      right. left. eexists. exact Hv.
+    + destruct (list_get cslots slot0) as [c|] eqn:Ec; [|discriminate].
+      destruct c; try (eapply IH; [exact Henv0|exact H0]);
+        (destruct (slot0 <? len env0); [|discriminate];
+         eapply IH; [|exact H0]; intros i' w Hi; rewrite list_get_set in Hi;
+         destruct (N.eqb_spec slot0 i') as [<-|_]; [|apply Henv0; exact Hi];
+         destruct (list_get env0 slot0); [|discriminate]; injection Hi as <-;
+         right; right; split; [reflexivity|]; eexists; split; [exact Ec|exact I]).
+    + destruct (list_get cslots slot0) as [c|] eqn:Ec; [|discriminate].
+      destruct c; try (eapply IH; [exact Henv0|exact H0]);
+        (destruct (slot0 <? len env0); [|discriminate];
+         eapply IH; [|exact H0]; intros i' w Hi; rewrite list_get_set in Hi;
+         destruct (N.eqb_spec slot0 i') as [<-|_]; [|apply Henv0; exact Hi];
+         destruct (list_get env0 slot0); [|discriminate]; injection Hi as <-;
+         right; right; split; [reflexivity|]; eexists; split; [exact Ec|exact I]).
+    + eapply IH; [exact Henv0|exact H0].
+Qed.
+
+Lemma enter_frame_cases s r s' :
+  enter_frame s = ROk r s' ->
+  (exists lam cep, heap_deref (hp s) (acc s) = Ok (VClosure lam cep)) \/ s' = enter_s1 s.
+Proof.
+  intros H. unfold enter_frame in H.
+  apply bind_pure_ok in H as (s0 & E0 & H); [|apply pure_get_vm]. injection E0 as <-.
+  apply bind_pure_ok in H as (target & Ht & H); [|apply pure_hderef].
+  unfold hderef in Ht. apply lift_ok in Ht as (Ht & _).
+  destruct target; try discriminate; [left; eauto|]. right.
+  apply bind_pure_ok in H as ([lp cenv] & Hlp & H).
+  2:{ apply pure_bind; [apply pure_as_ptr|]. intros; apply pure_ret. }
+  apply bind_pure_ok in Hlp as (p0 & _ & Hlp); [|apply pure_as_ptr].
+  unfold ret in Hlp. injection Hlp as <- <-.
+  apply bind_pure_ok in H as (lv & _ & H); [|apply pure_hget].
+  apply bind_pure_ok in H as (l & _ & H); [|apply pure_as_lambda].
+  apply bind_pure_ok in H as (a & _ & H); [|apply pure_stack_get_offset].
+  apply bind_pure_ok in H as (argc & _ & H); [|apply pure_as_argc].
+  destruct (negb (argc =? len (l_args l))); [discriminate|].
+  unfold bindM at 1 in H. unfold push at 1 in H.
+  unfold bindM at 1 in H. unfold get_vm at 1 in H.
+  unfold bindM at 1 in H. unfold usub at 1 in H.
+  cbn [sp with_stack with_scap] in H.
+  destruct (sp s + 1 <? 4) eqn:E4; [discriminate|].
+  unfold bindM at 1 in H. unfold set_bp at 1 in H.
+  unfold ret at 1 in H. cbv beta iota in H. unfold ret in H. injection H as _ <-. reflexivity.
+Qed.
+
+Lemma stack_clean_tset s t v p :
+  stack_clean s -> no_lexptr v -> (forall i, sget t i = slot (tset (stack s) p v) i) -> stack_clean t.
+Proof.
+  intros Hs Hv Ht i. rewrite Ht, slot_tset. destruct (p =? i); [exact Hv|]. rewrite <- sget_slot. apply Hs.
+Qed.
+
+(* a step that changes registers and the stack only *)
+Lemma lex_inv_regs s s' :
+  hp s' = hp s -> st s' = st s -> stack_clean s' -> no_lexptr (acc s') -> lex_inv s -> lex_inv s'.
+Proof.
+  intros Hh Hs Hst Hacc [I1 I2 I3 I4 I5]. constructor; try assumption.
+  - rewrite Hh; exact I1.
+  - rewrite Hs; exact I2.
+  - apply (flat_envs_step s s'); [apply envs_persist_same; intros q x; rewrite (env_at_ext s s' q Hh Hs); auto|exact I3|].
+    intros eid l k v E Hk. right. rewrite Hs in E. eauto.
+Qed.
+
+(* ENTER preserves the invariant — for a plain lambda (no environment is created) and
+   for a closure (the new activation environment copies pointers that were flat, or
+   points to a non-pointer slot of the closure environment, or holds an argument) *)
+Theorem lex_inv_enter s r s' : lex_inv s -> enter_frame s = ROk r s' -> lex_inv s'.
+Proof.
+  intros Hinv H. destruct (enter_frame_cases s r s' H) as [(lam & cep & Hacc)| ->].
+  2:{ apply (lex_inv_regs s); try reflexivity; [|apply (li_acc s Hinv)|exact Hinv].
+      apply (stack_clean_tset s (enter_s1 s) (VBp (bp s)) (sp s + 1)); [apply (li_stack s Hinv)|exact I|reflexivity]. }
+  pose proof Hinv as [I1 I2 I3 I4 I5].
+  destruct (enter_fresh_env s lam cep r s' I1 I2 Hacc H)
+    as (env0 & _ & _ & _ & _ & HI' & SW' & _ & _ & _ & Hold).
+  destruct (enter_frame_closure s lam cep r s' Hacc H)
+    as (lid & l & ceid & cslots & env & evp & h1 & _ & _ & Hcep & Hbuild & _ & _ & Es').
+  assert (Hpers : forall q x, env_at s q = Some x -> env_at s' q = Some x)
+    by (intros q x Hq; apply (Hold q x Hq)).
+  constructor; [exact HI'|exact SW'| | |].
+  - apply (flat_envs_step s s'); [apply envs_persist_same; exact Hpers|exact I3|].
+    intros eid l0 k v E Hk. subst s'. cbn [st with_ep with_heap with_store] in E.
+    change (st (enter_s1 s)) with (st s) in E. unfold new_env in E. cbn [snd envs] in E.
+    destruct (N.eq_dec (next_id (st s)) eid) as [<-|Hne].
+    + rewrite tget_tset_same in E. injection E as <-.
+      destruct (build_lexical_environment_origin _ _ _ _ _ _ Hbuild k v Hk) as [Ho|[(j & ->)|(-> & c & Hc & Hcl)]].
+      * right. apply env_at_some in Hcep as (_ & _ & Ec). eauto.
+      * left. apply no_lexptr_slot_flat.
+        apply (stack_clean_tset s (enter_s1 s) (VBp (bp s)) (sp s + 1)); [exact I4|exact I|reflexivity].
+      * left. cbn [slot_flat]. exists ceid, cslots, c. split; [apply Hpers; exact Hcep|]. auto.
+    + rewrite tget_tset_other in E by exact Hne. right. eauto.
+  - subst s'. apply (stack_clean_tset s _ (VBp (bp s)) (sp s + 1)); [exact I4|exact I|reflexivity].
+  - subst s'. exact I5.
+Qed.
+
+(* ---- CLOSURE *)
+Lemma heap_put_keeps h v r h' : heap_inv h -> heap_put h v = (r, h') ->
+  (forall x, v <> VPtr x) -> (forall t, v <> VSym t) ->
+  exists a, r = VPtr a /\ heap_inv h' /\ ~ allocated h a /\ allocated h' a /\ cell_at h' a = v /\
+            hlen h <= hlen h' /\
+            forall b, allocated h b -> b <> a /\ allocated h' b /\ cell_at h' b = cell_at h b.
+Proof.
+  intros HI H Hp Hs.
+  destruct (heap_put_fresh h v r h' HI H Hp Hs) as (a & -> & HI1 & Hna & Ha & Hca & Hl & Hother).
+  exists a. repeat (split; [first [reflexivity|assumption]|]).
+  intros b [Lb Nb]. assert (Hne : b <> a) by (intros ->; apply Hna; split; assumption).
+  destruct (Hother b Hne) as [Hc Hg]. split; [exact Hne|]. split; [|exact Hc].
+  split; [lia|rewrite Hg; exact Nb].
+Qed.
+
+(* the body of CLOSURE %acc in run_one (run.rs:266-283) *)
+Definition closure_body : M bool :=
+  dom s <- get_vm;
+  dom lp <- as_ptr (acc s);
+  dom lv <- hget lp; dom l <- as_lambda lv;
+  dom env <- build_closure_environment (l_envmap l);
+  dom ev <- env_new env; dom evp <- hput ev; dom ei <- as_ptr evp;
+  dom cp <- hput (VClosure lp ei);
+  dom _ <- set_acc cp; ret false.
+
+Lemma run_one_closure ob s s0 : read_opcode s = ROk OClosureAcc s0 -> run_one ob s = closure_body s0.
+Proof. intros H. unfold run_one. unfold bindM at 1. rewrite H. reflexivity. Qed.
+
+Lemma closure_body_inv s r s' :
+  closure_body s = ROk r s' ->
+  exists lp lid l env ei h1 cp h2,
+    acc s = VPtr lp /\ heap_get (hp s) lp = Ok (VLambda lid) /\ tget (lams (st s)) lid = Some l /\
+    build_closure_environment (l_envmap l) s = ROk env s /\
+    heap_put (hp s) (VLexEnv (next_id (st s))) = (VPtr ei, h1) /\
+    heap_put h1 (VClosure lp ei) = (cp, h2) /\ r = false /\
+    s' = with_acc (with_heap (with_store s (snd (new_env (st s) env))) h2) cp.
+Proof.
+  intros H. unfold closure_body in H.
+  apply bind_pure_ok in H as (s0 & E0 & H); [|apply pure_get_vm]. injection E0 as <-.
+  apply bind_pure_ok in H as (lp & Hlp & H); [|apply pure_as_ptr].
+  destruct (acc s) eqn:Eacc; try discriminate. cbn [as_ptr] in Hlp. unfold ret in Hlp. injection Hlp as ->.
+  apply bind_pure_ok in H as (lv & Hlv & H); [|apply pure_hget].
+  unfold hget in Hlv. apply lift_ok in Hlv as (Hlv & _).
+  apply bind_pure_ok in H as (l & Hl & H); [|apply pure_as_lambda].
+  destruct lv; try discriminate. cbn [as_lambda] in Hl. unfold get_lambda in Hl.
+  destruct (tget (lams (st s)) lid) as [l0|] eqn:El; [|discriminate].
+  assert (l0 = l) by congruence. subst l0. clear Hl.
+  unfold bindM at 1 in H.
+  destruct (build_closure_environment (l_envmap l) s) as [env s1|e m s1|k|] eqn:Eb; try discriminate.
+  destruct (closure_environment_slots _ _ _ _ Eb) as (-> & _).
+  unfold bindM, env_new, hput, set_acc, ret in H.
+  unfold new_env at 1 in H. cbn [hp with_store] in H.
+  destruct (heap_put (hp s) (VLexEnv (next_id (st s)))) as [evp h1] eqn:Ehp.
+  destruct evp; cbn [as_ptr fail ret] in H; try discriminate. unfold ret in H.
+  cbn [hp with_heap] in H.
+  destruct (heap_put h1 (VClosure lp p)) as [cp h2] eqn:Ehp2.
+  injection H as <- <-.
+  exists lp, lid, l, env, p, h1, cp, h2. repeat (split; [first [reflexivity|assumption]|]). reflexivity.
+Qed.
+
+Lemma load_arg_inv a s v s' : load_arg a s = ROk v s' -> exists j, v = sget s j.
+Proof.
+  intros H. unfold load_arg in H.
+  apply bind_pure_ok in H as (s0 & E0 & H); [|apply pure_get_vm]. injection E0 as <-.
+  apply bind_pure_ok in H as (x & _ & H); [|apply pure_stack_get].
+  apply bind_pure_ok in H as (n & _ & H); [|apply pure_as_argc].
+  apply bind_pure_ok in H as (b & _ & H); [|apply pure_usub].
+  apply stack_get_inv in H as (-> & _). eauto.
+Qed.
+
+Lemma lexptr_cases (cur X : vcell) :
+  (exists q k, cur = VLexPtr q k) \/
+  (no_lexptr cur /\ match cur with VLexPtr _ _ => cur | _ => X end = X).
+Proof. destruct cur; try (right; split; [exact I|reflexivity]). left; eauto. Qed.
+
+Lemma Forall2_list_get {A B} (P : A -> B -> Prop) la lb : Forall2 P la lb ->
+  forall k b, list_get lb k = Some b -> exists a, list_get la k = Some a /\ P a b.
+Proof.
+  unfold list_get. intros HF k. generalize (N.to_nat k). clear k.
+  induction HF as [|a b la lb Hab HF IH]; intros [|n] b0 Hn; try discriminate.
+  - injection Hn as <-. exists a. auto.
+  - apply IH. exact Hn.
+Qed.
+
+(* CLOSURE preserves the invariant: a captured variable is copied as the flat pointer it
+   already was, or becomes a pointer to the non-pointer slot of the current environment *)
+Theorem lex_inv_closure s r s' : lex_inv s -> closure_body s = ROk r s' -> lex_inv s'.
+Proof.
+  intros Hinv H. pose proof Hinv as [I1 I2 I3 I4 I5].
+  destruct (closure_body_inv s r s' H)
+    as (lp & lid & l & env & ei & h1 & cp & h2 & _ & _ & _ & Hbuild & Hp1 & Hp2 & _ & ->).
+  destruct (heap_put_keeps _ _ _ _ I1 Hp1) as (a1 & Ea1 & HI1 & _ & _ & _ & Hl1 & Hk1);
+    [discriminate|discriminate|]. injection Ea1 as <-.
+  destruct (heap_put_keeps _ _ _ _ HI1 Hp2) as (a2 & -> & HI2 & _ & _ & _ & Hl2 & Hk2);
+    [discriminate|discriminate|].
+  set (s' := with_acc (with_heap (with_store s (snd (new_env (st s) env))) h2) (VPtr a2)).
+  assert (Hpers : forall q x, env_at s q = Some x -> env_at s' q = Some x).
+  { intros q x Hq. eapply env_at_stable; [exact I1|exact I2| | | |exact Hq];
+      cbn [s' hp st with_acc with_heap with_store new_env snd envs].
+    - lia.
+    - intros b Hb. destruct (Hk1 b Hb) as (_ & Hb1 & Hc1). destruct (Hk2 b Hb1) as (_ & _ & Hc2). congruence.
+    - intros e He. apply tget_tset_other. lia. }
+  destruct (closure_environment_slots _ _ _ _ Hbuild) as (_ & HF).
+  constructor.
+  - exact HI2.
+  - apply (new_env_wf (st s) env I2).
+  - apply (flat_envs_step s s'); [apply envs_persist_same; exact Hpers|exact I3|].
+    intros eid l0 k v E Hk. cbn [s' st with_acc with_heap with_store new_env snd envs] in E.
+    destruct (N.eq_dec (next_id (st s)) eid) as [<-|Hne].
+    2:{ rewrite tget_tset_other in E by exact Hne. right. eauto. }
+    rewrite tget_tset_same in E. injection E as <-.
+    destruct (Forall2_list_get _ _ _ HF k v Hk) as ([sym src] & _ & Hsrc). cbn [snd] in Hsrc.
+    destruct src; cbn [closure_slot] in Hsrc;
+      try (subst v; left; exact I).
+    + left. apply no_lexptr_slot_flat. destruct (load_arg_inv _ _ _ _ Hsrc) as (j & ->). apply I4.
+    + destruct Hsrc as (eid & l1 & cur & Hep & Hcur & Hv).
+      destruct (lexptr_cases cur (VLexPtr (ep s) n)) as [(q & k2 & Hq)|(Hcl & Hm)].
+      * right. subst cur. subst v. apply env_at_some in Hep as (_ & _ & E1). eauto.
+      * left. rewrite Hm in Hv. subst v. cbn [slot_flat]. exists eid, l1, cur.
+        split; [apply Hpers; exact Hep|]. auto.
+  - exact I4.
+  - exact I.
+Qed.
